@@ -28,6 +28,8 @@ FIXES = [
     ("C08", "fix: øṘ (roman numeral) vectorises over lazy lists", "øṘ on a LazyList returned None (branch tested vy_type(lhs) is list)"),
     ("C08", "fix: ∆± (copy sign) vectorises over its second argument", "∆± with a list as sign argument used the truthiness of the whole comparison: 0 ⟨⟩ ∆± gave 0 instead of ⟨⟩"),
     ("C08", "fix: ∆f (nth Fibonacci number) vectorises", "∆f on a list raised (template sympy.fibonacci(lhs + 1)) although documented vectorise: true"),
+    ("C02", "fix: break/continue in a while condition", "{X|+} / {x|+}: break/continue emitted in front of the while loop -> 'break' outside loop (410 programs of the context sweep)"),
+    ("C02", "fix: break/continue inside a list item", "(⟨X⟩) / (⟨x⟩): break/continue emitted inside def list_item nested in a for loop -> SyntaxError (132 programs)"),
     ("C02", "fix: the template of ¨…", "the template of ¨… had a positional argument after a keyword argument: every program containing ¨… failed to compile"),
 ]
 
